@@ -710,6 +710,15 @@ def r01_16(ctx):
 
 
 def run(ctx):
+    from .sweep import r01_17 as _r01_17
+    _r01_17(ctx)
+    from .sweep import r05_13 as _r05_13a
+    _r05_13a(ctx, 'R01.18')
+    # exactly one result per executed job (borrowed from C03): a worker that survives a failed fallback leaves the job unresolved
+    from .c03 import r03_2 as _r03_2b
+    from .poolfacts import WorkloopAnchors as _WAb
+    from ..report import Only as _OnlyS1
+    _r03_2b(_OnlyS1(ctx, ('one-ready-per-executed-job',), floor=1, doc='every executed job sends exactly one READY or the worker dies (never: lives on without having answered)'), _WAb(ctx))
     r01_15(ctx)
     r01_16(ctx)
     from .c06 import r06_3 as _r06_3
